@@ -348,9 +348,13 @@ pub fn run(report: &Report, thorough: bool) -> Evidence {
                         // R1 after a restart (a true new context for i == 1, else the method re-created)
                         let mut e2 = evs.clone();
                         e2.push(Ev::Restart);
-                        let recalled = if i == 1 {
+                        let recalled = if i == 1 || i == 2 {
                             new_ctx_loads.fetch_add(1, Ordering::Relaxed);
-                            match Ctx::new(&o) {
+                            // (for i == 2 the new context starts life under the inverted options - candidate list off among them -,
+                            // composes a word and is then re-configured by update-engine: a restart that reaches the options later)
+                            let mut o_new = o.clone();
+                            o_new.via_update = i == 2;
+                            match Ctx::new(&o_new) {
                                 Ok(mut c2) => {
                                     c2.with_pre = false;
                                     type_text(&mut c2, &text, &mut e2).ok().flatten()
